@@ -14,6 +14,8 @@ import (
 	"math/rand/v2"
 	"slices"
 	"strings"
+
+	dtlsstate "github.com/pion/dtls/v3/internal/state"
 	"testing"
 	"testing/synctest"
 	"time"
@@ -657,6 +659,78 @@ func vfC11Run(t *testing.T, res *vfResult, idx int) {
 	synctest.Wait()
 }
 
+// vfC11ResumedPolicy: the policy of the connection being made governs a resumed handshake too. A session is
+// established under permissive settings; the next connection (same stores) tightens or drops extended master
+// secret on one side, or narrows the suite list.
+func vfC11ResumedPolicy(t *testing.T, res *vfResult, idx int) {
+	type pol struct{ c, s ExtendedMasterSecretType }
+	pols := []pol{
+		{RequireExtendedMasterSecret, DisableExtendedMasterSecret}, {DisableExtendedMasterSecret, RequireExtendedMasterSecret},
+		{RequireExtendedMasterSecret, RequestExtendedMasterSecret}, {RequestExtendedMasterSecret, RequireExtendedMasterSecret},
+		{DisableExtendedMasterSecret, RequestExtendedMasterSecret}, {RequireExtendedMasterSecret, RequireExtendedMasterSecret},
+	}
+	firsts := []pol{{RequestExtendedMasterSecret, RequestExtendedMasterSecret}, {DisableExtendedMasterSecret, DisableExtendedMasterSecret}}
+	bases := []vfCfg{vfBaseCfg(vfSuiteByName("PSK-GCM"), ""), vfBaseCfg(vfSuiteByName("ECDSA-GCM128"), "ecdsa")}
+	second := pols[idx%len(pols)]
+	first := firsts[(idx/len(pols))%len(firsts)]
+	cfg := bases[(idx/(len(pols)*len(firsts)))%len(bases)]
+	cfg.Store = true
+	cS, sS := vfNewMemStore("c"), vfNewMemStore("s")
+	res.Eval(1)
+	c1 := cfg
+	c1.EMSc, c1.EMSs = first.c, first.s
+	co, so := c1.Options(cS, sS)
+	p, err := vfNewPair(vfNewNet(), co, so)
+	if err != nil {
+		return
+	}
+	ce, se := p.Handshake(time.Minute)
+	p.Close()
+	synctest.Wait()
+	if ce != nil || se != nil {
+		res.Count("resumed_policy_first_failed", 1)
+
+		return
+	}
+	c2 := cfg
+	c2.EMSc, c2.EMSs = second.c, second.s
+	co, so = c2.Options(cS, sS)
+	n := vfNewNet()
+	p, err = vfNewPair(n, co, so)
+	if err != nil {
+		return
+	}
+	ce, se = p.Handshake(time.Minute)
+	id := fmt.Sprintf("resumed-policy|%s|first=ems%d%d|second=ems%d%d", cfg.Suite.Name, first.c, first.s, second.c, second.s)
+	res.NonTrivial(id)
+	res.Count("resumed_policy_cases", 1)
+	abbreviated := true
+	for _, w := range n.Emissions("s") {
+		if strings.Contains(vfKind(w.Data), "ServerHelloDone") {
+			abbreviated = false
+		}
+	}
+	if ce == nil && se == nil {
+		ems := func(c *Conn) bool {
+			st, err := dtlsstate.As12(c.state)
+
+			return err == nil && st.ExtendedMasterSecret
+		}
+		res.Seen("resumed_policy_outcomes", fmt.Sprintf("%s -> completed abbreviated=%v ems=%v/%v", id, abbreviated, ems(p.C.Conn), ems(p.S.Conn)))
+		if (second.c == RequireExtendedMasterSecret && !ems(p.C.Conn)) || (second.s == RequireExtendedMasterSecret && !ems(p.S.Conn)) {
+			res.Violate("C11:completed-without-required-ems:resumed", fmt.Sprintf("a side requires extended master secret and the (abbreviated=%v) handshake completed without it: %s", abbreviated, id),
+				map[string]any{"resumed_policy": idx})
+		}
+		if ems(p.C.Conn) != ems(p.S.Conn) {
+			res.Violate("C11:ems-disagreement:resumed", "the two sides disagree on extended master secret after a resumed handshake: "+id, map[string]any{"resumed_policy": idx})
+		}
+	} else {
+		res.Seen("resumed_policy_outcomes", fmt.Sprintf("%s -> refused (%s / %s)", id, vfErrNorm(ce), vfErrNorm(se)))
+	}
+	p.Close()
+	synctest.Wait()
+}
+
 func TestVF_C11(t *testing.T) {
 	vfGetPKI()
 	res := vfNewResult("C11", "generated pairs of option sets (version range x suite lists x curves x signature schemes x key type/PSK x EMS policy x "+
@@ -668,12 +742,17 @@ func TestVF_C11(t *testing.T) {
 	if vfEnv().Replay != "" {
 		var rf struct {
 			Replay struct {
-				Case int `json:"case"`
+				Case    int  `json:"case"`
+				Resumed *int `json:"resumed_policy"`
 			} `json:"replay"`
 		}
 		vfLoadReplay(t, &rf)
 		vfDumpWire = true
-		synctest.Test(t, func(t *testing.T) { vfC11Run(t, res, rf.Replay.Case) })
+		if rf.Replay.Resumed != nil {
+			synctest.Test(t, func(t *testing.T) { vfC11ResumedPolicy(t, res, *rf.Replay.Resumed) })
+		} else {
+			synctest.Test(t, func(t *testing.T) { vfC11Run(t, res, rf.Replay.Case) })
+		}
 		res.NonTrivial("replay-extra")
 		res.Sample("replay")
 		res.Finish(t)
@@ -682,6 +761,7 @@ func TestVF_C11(t *testing.T) {
 	}
 	nc := vfPick(3000, 150000)
 	vfBubbles(t, nc, func(t *testing.T, i int) { vfC11Run(t, res, i) })
+	vfBubbles(t, 24, func(t *testing.T, i int) { vfC11ResumedPolicy(t, res, i) })
 	res.Floor("negotiations_checked", int64(nc/10))
 	res.Floor("refused_incompatible", int64(nc/20))
 	res.Finish(t)
